@@ -8,14 +8,23 @@ C02 — deserializing any valid Arrow array yields exactly its logical content.
 Property theorems only.  Model: SaModel/Read/Reader.lean (`Fixes.all`); specification: SaModel/Spec/Decode.lean
 in its slot-wise form SaModel/Spec/DecodeAt.lean; rendering of logical values: SaModel/Read/ToD.lean.
 
-* `read_any_decode`: for EVERY array `a` (any nesting) and every slot `i` whose Arrow reading is defined
-  (`decodeAt a i = ok lv`), if the reader can be built (`new a = ok`), the lengths are representable in Rust
-  (`physical`) and the strings are well-formed UTF-8, `deserialize_any` returns exactly `toD a lv`.
+* `decodeAll_eq_decodeAt`, `decode_eq_decodeAt`, `len_eq_lenOf`: the slot-wise oracle used everywhere is
+  `Spec.decodeAll` / `Spec.decode`, for every array, no hypothesis.
+* `read_any_decode` (`read_any_decode_spec`, `read_fields_decode`, `read_variant_decode`): for EVERY array `a` (any
+  nesting) and every slot `i` whose Arrow reading is defined (`decodeAt a i = ok lv`), if the reader can be built
+  (`new a = ok`), the lengths are representable in Rust (`physical`) and the strings are well-formed UTF-8,
+  `deserialize_any` returns exactly `toD a lv`.
 * `C02_layout_irrelevant`: the result is a function of the decoded value and the type skeleton only, so any two
   arrays that decode alike read alike — every layout freedom of the statement is an instance.
-* `decodeAll_eq_decodeAt`: the slot-wise oracle used everywhere is `Spec.decodeAll` / `Spec.decode`.
-* `read_typed_decode`: typed reads (every target shape, any nesting) return what the value-level specification `cast`
-  demands; `null_*_reads_hidden_data` + witness: known finding #23.
+* `read_typed_decode` (`read_typed_sound` + `targets_sound` / `tfields_sound` / `variants_sound` / `kind_sound`,
+  `read_typed_decode_spec`, `read_option_null`, `C02_typed_layout_irrelevant`): typed reads (every target shape, any
+  nesting) return what the value-level specification `cast` demands.
+* `cast_na_only` (`cast_na_iff`: the same implication with the value quantified), `cast_must_or_mustFail`: `cast` is
+  `na` only in cells where field names repeat (`naCell`); every other cell is `must d` or `mustFail`.
+* `decimalRepr_spec`: the text of a Decimal128 slot is `format_decimal` of C15.
+* `read_any_decode_supported`, `read_typed_decode_supported`, `unsupported_refused`: the read theorems with
+  `supportedView a` in place of `new a = ok` (`new_ok_iff_supported`, `Lemmas/C02Supported.lean`).
+* `null_struct/list/fsl/map_reads_hidden_data` + `null_container_into_non_option_witness`: known finding #23.
 -/
 namespace SaModel.Props.C02
 open SaModel SaModel.Read SaModel.Spec
@@ -161,8 +170,9 @@ structs by field name, enums by variant name or index, nested to any depth), EVE
 reading is defined, under the hypotheses of `read_any_decode`: whatever the value-level specification demands
 (`cast t a lv = must d`) is what the typed read returns.  `cast` covers EVERY (target, column) pair: it says `must d`
 for every pair the reader supports (Dictionary → `&str` / `String` / enum-as-string, struct → map with any key target a
-field name can be read into (String, ByteBuf, char, enum-by-name, any, IgnoredAny), temporal / decimal columns → String /
-ByteBuf through the codecs of C14 / C15, f64 → f32 by IEEE narrowing, `ByteBuf` from a list of u8 included) and
+field name can be read into (String, ByteBuf, char, enum-by-name, any, IgnoredAny), Date32 / Date64 / Time32 / Time64 /
+Timestamp / Duration columns → String / ByteBuf and Decimal128 columns → String (no ByteBuf row: `castLeaf`) through the
+codecs of C14 / C15, f64 → f32 by IEEE narrowing, `ByteBuf` from a list of u8 included) and
 `mustFail` for a value the target cannot hold, a value the codec refuses and a pair the reader does not offer
 (`Props.C05.read_mustFail`: the read fails there); it is `na` only where field names repeat (`cast_na_only`).  What the
 code does for a null container slot and a non-Option target is `null_*_reads_hidden_data` below (known finding
@@ -186,8 +196,11 @@ theorem cast_na_only (t : Target) (a : Arr) (lv : LVal) (h : Read.cast t a lv = 
     simp only [naCell, Bool.not_eq_false', Bool.and_eq_true] at hc
     exact absurd h (cast_nn t hc.1 a lv hc.2)
 
-/-- the characterisation, as an equivalence on the cell: some value of the cell is left without a claim only if the
-cell repeats names — and a cell that does is outside of the claim of this file (`structClaim`) -/
+/-- `cast_na_only` with the value quantified — ONE implication, left to right (the name says `iff`, the statement does
+not): if SOME value of the cell `(t, a)` is left without a claim, the cell repeats names (`naCell t a = true`).  The
+converse is not stated and does not hold: `naCell t a = true` as soon as a struct column inside `a` repeats a child
+name, while e.g. `cast .any a lv = must (toD a lv)` for every such `a`.  A cell that repeats names is outside of the
+claim of this file (`structClaim`). -/
 theorem cast_na_iff (t : Target) (a : Arr) : (∃ lv, Read.cast t a lv = na) → naCell t a = true :=
   fun ⟨lv, h⟩ => cast_na_only t a lv h
 
@@ -297,7 +310,7 @@ example : ∀ i ∈ [0, 1], ∀ t ∈ exTargets, exLv i ≠ .null ∧
   obtain ⟨d, hc⟩ := isMust_elim (List.all_eq_true.mp h4 t ht)
   exact ⟨h3, d, hc, read_typed_decode t exCol i (exLv i) d h1 hn hp h2 hc⟩
 
-/-! non-vacuity of the newly covered cells (computed): a dictionary column as borrowed `&str` and as enum-by-name, a
+/-! non-vacuity of the dictionary / codec / narrowing / map-key cells (computed): a dictionary column as borrowed `&str` and as enum-by-name, a
 Date32 / Time64(us) / Timestamp(ms, UTC) / Duration(ns) / Decimal128(scale 2) column as `String`, Float64 as `f32`
 (1.1 rounds to 0x3F8CCCCD; 1e300 overflows to +inf), a struct read as `HashMap<char, i64>` and as a map keyed by an enum,
 `ByteBuf` from a List<UInt8>: `cast` demands the value shown and (by `read_typed_decode`) the read returns it -/
